@@ -136,10 +136,12 @@ var FuncNames = map[uintptr]string{}
 // Value projects a Go value the evaluator hands out into the specification's value
 // domain (FValues.tla). Go ints and floats are numbers, typed nil pointers are null.
 func Value(v interface{}) any {
-	return value(v, 0)
+	return value(v, 0, map[uintptr]bool{})
 }
 
-func value(v interface{}, depth int) any {
+// path: the maps and slices being projected above v; a value that contains itself projects as <<"cycle">>
+// at the point where it comes round again (and not as an exponentially large unfolding)
+func value(v interface{}, depth int, path map[uintptr]bool) any {
 	if depth > 12 {
 		return T{"deep"}
 	}
@@ -195,9 +197,16 @@ func value(v interface{}, depth int) any {
 		}
 		return T{"other", "ptr"}
 	case reflect.Slice, reflect.Array:
+		if rv.Kind() == reflect.Slice && rv.Len() > 0 {
+			if path[rv.Pointer()] {
+				return T{"cycle"}
+			}
+			path[rv.Pointer()] = true
+			defer delete(path, rv.Pointer())
+		}
 		out := T{}
 		for i := 0; i < rv.Len(); i++ {
-			out = append(out, value(rv.Index(i).Interface(), depth+1))
+			out = append(out, value(rv.Index(i).Interface(), depth+1, path))
 		}
 		if rv.Type() != reflect.TypeOf([]interface{}(nil)) {
 			return T{"arr", out, goTypeTag(rv.Type())}
@@ -207,10 +216,17 @@ func value(v interface{}, depth int) any {
 		if rv.Type().Key().Kind() != reflect.String {
 			return T{"other", "imap"}
 		}
+		if rv.Len() > 0 {
+			if path[rv.Pointer()] {
+				return T{"cycle"}
+			}
+			path[rv.Pointer()] = true
+			defer delete(path, rv.Pointer())
+		}
 		m := map[string]any{}
 		it := rv.MapRange()
 		for it.Next() {
-			m[it.Key().String()] = value(it.Value().Interface(), depth+1)
+			m[it.Key().String()] = value(it.Value().Interface(), depth+1, path)
 		}
 		if rv.Type() != reflect.TypeOf(map[string]interface{}(nil)) {
 			return T{"map", m, goTypeTag(rv.Type())}
@@ -223,7 +239,7 @@ func value(v interface{}, depth int) any {
 			f := rv.Type().Field(i)
 			if f.Anonymous && rv.Field(i).Kind() == reflect.Struct {
 				// an embedded struct: its exported fields are promoted
-				if sub, ok := value(rv.Field(i).Interface(), depth+1).([]any); ok && len(sub) == 3 {
+				if sub, ok := value(rv.Field(i).Interface(), depth+1, path).([]any); ok && len(sub) == 3 {
 					for k, v := range sub[1].(map[string]any) {
 						m[k] = v
 					}
@@ -231,7 +247,7 @@ func value(v interface{}, depth int) any {
 				continue
 			}
 			if f.IsExported() {
-				m[f.Name] = value(rv.Field(i).Interface(), depth+1)
+				m[f.Name] = value(rv.Field(i).Interface(), depth+1, path)
 			} else {
 				hidden = append(hidden, f.Name)
 			}
